@@ -398,7 +398,13 @@ def impl_session(case, read_timeout):
         objs = [S3ChunkStore(fake.url, timeout=(2, read_timeout), **retries_kw(c)) for c in cfgs]
     except Exception as e:
         return [(classify_exc(e), '', [], None)]
-    norm = {n.replace('_', '-'): i for i, n in enumerate(BUCKET_NAMES)}
+    names = BUCKET_NAMES
+    if 'cfgs' in case:
+        # histories over several store objects get bucket names of their own (and fresh ones for the confirmation re-run):
+        # a cache that outlives its store object cannot leak into - or out of - such a history, so a reported history
+        # fails on its own in a fresh process too
+        names = tuple('m%s%s_%d' % (case.get('serial', 0), 'r' if read_timeout > 1.0 else '', i) for i in range(len(BUCKET_NAMES)))
+    norm = {n.replace('_', '-'): i for i, n in enumerate(names)}
     for o in case['ops']:
         store = objs[o.get('store', 0)]
         p = pls[o['payload']]
@@ -407,7 +413,7 @@ def impl_session(case, read_timeout):
         fake.arm([action(s) for s in o['fs']], [action(s) for s in o['fsb']], ('full', 'empty', 'missing')[o['state']],
                  p['data'])
         try:
-            c = store.get_chunk(BUCKET_NAMES[o['bucket']] + '/arr', slices, a.dtype)
+            c = store.get_chunk(names[o['bucket']] + '/arr', slices, a.dtype)
             ok = isinstance(c, np.ndarray) and c.dtype == a.dtype and c.shape == a.shape and np.array_equal(c, a)
             cls = OK if ok else 7
         except Exception as e:
@@ -462,7 +468,7 @@ def compare_session(ctx, case, mout, read_timeout=0.5, confirm=True):
         want_req = 'O' * mo + 'B' * mb
         listed = {bucket_of_path(e[2]) for e in log if e[0] == 'B'}
         asked = {bucket_of_path(e[2]) for e in log if e[0] == 'O'}
-        if confirm and k < len(case['ops']):
+        if confirm and k < len(case['ops']) and 'cfgs' not in case:
             o = case['ops'][k]
             idx = '_'.join('%05d' % 0 for _ in env()[1][o['payload']]['array'].shape)
             check_paths(ctx, case, log, ['%s/arr/%s.npy' % (BUCKET_NAMES[o['bucket']], idx)])
@@ -868,7 +874,10 @@ def session_cases(ctx):
         cases.append(dict(kind='session', cfg=cfgs[0], cfgs=cfgs, ops=ops))
     # histories over several store objects first: a cache that outlives its store object (class / module level) makes
     # every LATER case of the same process start dirty; the first reports should be histories that fail on their own
-    return [c for c in cases if 'cfgs' in c] + [c for c in cases if 'cfgs' not in c]
+    multi = [c for c in cases if 'cfgs' in c]
+    for j, c in enumerate(multi):
+        c['serial'] = j
+    return multi + [c for c in cases if 'cfgs' not in c]
 
 
 # ---------------------------------------------------------------------------------------------------
